@@ -29,14 +29,14 @@ META = dict(
                   "z3 / cvc5 only to search for a counter-model of a rejected clause and to decide non-EUF array lemmas (labelled)"],
     assumptions=["Logic::termToSMT2String prints the atom the solver holds (C17)"],
     rule="scripts from lib/scriptgen_th.py over QF_LRA QF_LIA QF_UF QF_UFLRA QF_UFLIA QF_RDL QF_IDL QF_AX QF_ALIA QF_ALRA "
-         "QF_UFIDL QF_UFRDL x engines default/lookahead/picky/ghost/proofs/itp/nosimp/incr; a case = one distinct theory "
+         "QF_AUFLIA QF_UFIDL QF_UFRDL x engines default/lookahead/picky/ghost/proofs/itp/nosimp/incr; a case = one distinct theory "
          "clause of one run; non-trivial = at least 2 literals; distinct = (logic, kind, clause text)",
 )
 
-ARRAY_LOGICS = ("QF_AX", "QF_ALIA", "QF_ALRA")
+ARRAY_LOGICS = ("QF_AX", "QF_ALIA", "QF_ALRA", "QF_AUFLIA")
 LOGIC_CYCLE = ["QF_LRA", "QF_LIA", "QF_UF", "QF_UFLRA", "QF_UF", "QF_RDL", "QF_IDL", "QF_UF", "QF_UFLIA", "QF_LRA", "QF_LIA",
                "QF_AX", "QF_UF", "QF_ALIA", "QF_IDL", "QF_RDL", "QF_ALRA", "QF_UFIDL", "QF_UF", "QF_UFRDL", "QF_AX", "QF_LIA",
-               "QF_LRA", "QF_UF"]
+               "QF_LRA", "QF_UF", "QF_AUFLIA", "QF_AX", "QF_ALIA", "QF_AX"]
 INCOMPLETE_RATE = 0.01
 
 
@@ -77,6 +77,7 @@ def plan(s, ev, env, isint):
             out.append(("euf", TC.encode_euf(lits)))
             if SG.has_arrays(s["logic"]):
                 out.append(("array-row", TC.encode_euf(lits, arrays=True)))
+                out.append(("array-row-split", TC.encode_euf(lits, arrays=True, splits=7)))
         except (TC.Unsupported, T.ParseError):
             pass
     if arith and all_leq:
